@@ -8,6 +8,11 @@ b = json.load(open("/root/.vp/BASELINE.json"))
 fd, path = tempfile.mkstemp(suffix=".xml"); os.close(fd)
 env = {k: v for k, v in os.environ.items() if k != "XGI_VERIF"}
 cmd = b["cmd"].replace("<file>", path)
+if len(sys.argv) > 1:  # run the same suite in another checkout (scratch worktree), importing that checkout's xgi
+    wt = os.path.abspath(sys.argv[1])
+    cmd = cmd.replace("cd /repo", "cd " + wt)
+    env["PYTHONPATH"] = wt
+    cmd += " --ignore=demo.py"
 p = subprocess.run(cmd, shell=True, env=env, capture_output=True, text=True)
 passed, failed = set(), set()
 for tc in ET.parse(path).getroot().iter("testcase"):
